@@ -163,9 +163,13 @@ void* virtual_memory_allocator::allocate_node(std::size_t size, std::size_t)
     auto no_pages = calc_no_pages(size);
     auto pages    = virtual_memory_reserve(no_pages);
     if (!pages || !virtual_memory_commit(pages, no_pages))
+    {
+        if (pages) // commit failed, don't leak the reserved address range
+            virtual_memory_release(pages, no_pages);
         FOONATHAN_THROW(
             out_of_memory({FOONATHAN_MEMORY_LOG_PREFIX "::virtual_memory_allocator", nullptr},
                           no_pages * virtual_memory_page_size));
+    }
     on_allocate(size);
 
     return detail::debug_fill_new(pages, size, virtual_memory_page_size);
